@@ -11,8 +11,15 @@ CONSTANTS
   Dev_NdValIndex = TRUE
   Dev_CsIndex = TRUE
   Dev_SizeHint = TRUE
+  Dev_RsrcRecursion = TRUE
+  Dev_FirstDepth = TRUE
+  Dev_KidsDepth = TRUE
+  StackFrames = 9
+  OutlineDepthLimit = 5
+  NameTreeDepthLimit = 5
+  ChainLens = {1, 2, 3, 4, 5, 6, 7, 8, 9, 10, 12, 16, 24}
   Emit = FALSE
-  Scen = {"links", "kids", "dest", "names", "img", "pages"}
+  Scen = {"chain", "links", "kids", "dest", "names", "img", "pages"}
 INVARIANTS PcOK TotalInv
 
 CHECK_DEADLOCK FALSE
